@@ -344,7 +344,10 @@ def layer_pe(repo, ci, name, own_constraints=False):
 
   def base_get_config(pe_, a, k):
     me = pe_.external_super_self
-    return dict(me.attrs.get("__base_config__", {}))
+    conf = dict(me.attrs.get("__base_config__", {}))
+    if "trainable" in conf and "trainable" in me.attrs:
+      conf["trainable"] = me.attrs["trainable"]   # Keras writes the LIVE flag
+    return conf
 
   def ser(pe_, a, k):
     v = a[0]
@@ -385,6 +388,82 @@ def layer_pe(repo, ci, name, own_constraints=False):
     eo["tf.keras.constraints.get"] = kget
     eo["tf.keras.initializers.get"] = kget
   return pe
+
+
+def rule_frozen_then_unfrozen(rep, repo, table, rule="R7"):
+  """A layer created frozen (`trainable=False`) and unfrozen afterwards -
+  freeze the backbone, train the head, unfreeze - is serialised with its
+  LIVE trainable flag: the layer rebuilt from that config applies the
+  quantizers the original applies (same class, bits, alpha, symmetric per
+  role).  Nothing decided once from the constructor keyword may differ from
+  what the rebuilt layer decides."""
+  qmod = repo.module("qkeras.quantizers")
+  n = 0
+  skipped = {}
+  fields = ("bits", "integer", "alpha", "symmetric", "keep_negative")
+  for name, cref in sorted(table.items()):
+    ci = getattr(cref, "cls", None)
+    if ci is None or not is_keras_object(ci) or \
+        ci.module.name == "qkeras.quantizers" or name in SKIP_ROUNDTRIP:
+      continue
+    params = [p for p, _ in ci.init_params()[0]]
+    qparams = [p for p in params if p.endswith("_quantizer") and
+               p != "inverse_quantizer"]
+    if not qparams or not ci.init_params()[2]:
+      continue
+    unit = "%s::%s.__init__" % (ci.module.relpath, ci.name)
+    pe = layer_pe(repo, ci, name)
+    kw = {p: "quantized_bits(4,0,1)" for p in qparams}
+    for p_, v_ in (("units", 4), ("filters", 8), ("kernel_size", 3),
+                   ("pool_size", 3)):
+      if p_ in params:
+        kw[p_] = v_
+    kw["trainable"] = False
+    try:
+      o = pe.call(cref, [], dict(kw))
+      pe.setattr(o, "trainable", True)
+      cfg = pe.call(pe.getattr(o, "get_config"), [], {})
+      # (deserialisation builds NEW quantizer objects: each entry is copied
+      # as the original stood when it was serialised)
+      from .. import prims as _prims
+      cfg2 = {k: (_prims.call(pe, "copy.deepcopy", [v.attrs["obj"]], {},
+                              None) if isinstance(v, Mock) and
+                  v.name == "serialized" else v) for k, v in cfg.items()}
+      snap = {p: tuple(getattr(o.attrs.get(p + "_internal"), "attrs",
+                               {}).get(f_) for f_ in fields)
+              for p in qparams}
+      fowner, ffn = ci.find_method("from_config")
+      if ffn is not None:
+        o2 = pe.call_func(Func(ffn, fowner.module, [], "from_config", cref,
+                               fowner), [dict(cfg2)], {})
+      else:
+        o2 = pe.call(cref, [], dict(cfg2))
+    except (PyRaise, Unsupported) as e:
+      skipped[name] = str(e)[:100]
+      continue
+    if not isinstance(o2, Obj) or not isinstance(cfg, dict) or \
+        cfg.get("trainable") is not True:
+      skipped[name] = "no live trainable flag in the config"
+      continue
+    n += 1
+    rep.unit(unit)
+    diff = []
+    for p in qparams:
+      a_, b_ = o.attrs.get(p + "_internal"), o2.attrs.get(p + "_internal")
+      if not isinstance(a_, Obj) or not isinstance(b_, Obj):
+        continue
+      va = (a_.cls.name,) + tuple(a_.attrs.get(f_) for f_ in fields)
+      vb = (b_.cls.name,) + tuple(b_.attrs.get(f_) for f_ in fields)
+      if va != vb:
+        diff.append("%s: original %s%r, rebuilt %s%r" % (
+            p, va[0], dict(zip(fields, va[1:])), vb[0],
+            dict(zip(fields, vb[1:]))))
+    rep.check(not diff, rule, unit, "frozen-then-unfrozen-layer-rebuilt-"
+              "differently", "%s created with trainable=False, unfrozen, "
+              "rebuilt from its config: %s" % (name, "; ".join(diff)),
+              loc=ci.loc(), instance=name)
+  rep.extra["frozen_layers_not_interpretable"] = skipped
+  return n
 
 
 def rule_layer_roundtrip(rep, repo, table):
@@ -946,6 +1025,9 @@ def run(rep, repo, tier):
   rule_routes(rep, repo)
   rule_layer_roundtrip(rep, repo, table)
   rep.require_instances("R5", 25)
+  if rule_frozen_then_unfrozen(rep, repo, table) < 8:
+    raise AnalysisError("instance-count frozen layers: %r" %
+                        rep.extra.get("frozen_layers_not_interpretable"))
   rule_wrappers(rep, repo)
   rep.require_instances("R6", 20)
   rep.sample({"custom_object_table": sorted(table)})
